@@ -142,7 +142,17 @@ def run_cell(cell, seed):
         return [res(VIOLATED, {'cell': cell}, 'M-REF', 'constructor raised %r' % (mod,))]
     x = make_x(cell, seed)
     ok, z = util.call_lib(mod, x)
-    return judge(cell, x, ok, z)
+    out = judge(cell, x, ok, z)
+    if ok and core.rng_for(seed, PROP, 'ng', str(cell)).random() < 0.5:
+        # the same input with autograd recording (requires_grad) and inside torch.no_grad(): same values
+        ok2, z2 = util.call_lib(mod, x.clone().requires_grad_(True))
+        ok3, z3 = util.call_lib_nograd(mod, x)
+        for nm, okk, zz in (('requires_grad input', ok2, z2), ('torch.no_grad()', ok3, z3)):
+            rs = judge(dict(cell), x, okk, zz.detach() if okk else zz)
+            for r in rs:
+                r['case'] = dict(r['case'], context=nm)
+            out.extend(rs)
+    return out
 
 
 def nontrivial(r):
